@@ -9,12 +9,12 @@
 # on the key (real fields, reference state) only, so merged states have the same futures on both sides.
 # Further parts: flat (unmerged) enumeration of all sequences <= N incl. the whole-test verdict through the real
 # TestRunTAP x exit status {0,1}; all strings of <= 2 printable characters as one-line streams; the pinned streams.
-import io, itertools, json, re, sys, types
+import io, json, re, sys, types
 from collections import namedtuple
 from verif.core import Check, pmap, run_main
 
 from mesonbuild import mtest
-from mesonbuild.mtest import TAPParser, TestResult
+from mesonbuild.mtest import TAPParser
 
 ALPHA = ['ok', 'not ok', 'ok 1', 'ok 2', 'ok 3', 'not ok 2', 'ok # SKIP r', 'not ok # SKIP', 'ok # TODO',
          'not ok # TODO', 'ok # FOO', 'ok 1 - name',
@@ -32,8 +32,16 @@ NA = len(ALPHA)
 # for which an error event at this step is allowed but not required (deferred to end of stream, or an unspecified
 # corner).  `prune` = the meaning of the rest of the stream is not specified; the state is not extended.
 # ======================================================================================================
-R = namedtuple('R', 'first v13 mode indent plan plan_late late_seen bailed count prev seen dup')
-R0 = R(True, False, 'M', '', None, False, False, False, 0, 0, (), False)
+R = namedtuple('R', 'first v13 mode indent plan plan_late late_seen bailed count prev seen dup dup_paid')
+R0 = R(True, False, 'M', '', None, False, False, False, 0, 0, (), False, False)
+
+
+def pay(r, may, sk):
+    """The implementation chose to report a duplicate on the spot (allowed): the numbering error at end of stream that
+    the duplicate entails is then no longer required.  (Never happens on the pinned tree, which reports at the end.)"""
+    if sk == 2 and 'duplicate' in may and not r.dup_paid:
+        return r._replace(dup_paid=True)
+    return r
 
 _T_VERSION = re.compile(r'TAP version ([0-9]+)$')
 _T_PLAN = re.compile(r'1\.\.([0-9]+)\s*(?:#\s*(.*))?$')
@@ -195,7 +203,8 @@ def ref_end(r):
             num.add('duplicate')
     # after Bail out! the run was aborted: counts are not expected to add up (not compared: unspecified corner,
     # pinned by test_too_few_bailout as "no error")
-    (may if r.bailed else must).update(num)
+    waived = r.bailed or (r.dup_paid and num <= {'duplicate', 'missing-number'})
+    (may if waived else must).update(num)
     return must, may
 
 
@@ -206,14 +215,30 @@ FIELDS = ('state', 'plan', 'num_tests', 'last_test', 'highest_test', 'found_late
           'yaml_indent')
 
 
+def _canon(v):
+    if isinstance(v, (set, frozenset)):
+        return ('set',) + tuple(sorted(map(_canon, v), key=repr))
+    if isinstance(v, dict):
+        return ('dict',) + tuple(sorted(((_canon(k), _canon(x)) for k, x in v.items()), key=repr))
+    if isinstance(v, (list, tuple)):
+        return tuple(_canon(x) for x in v)
+    if isinstance(v, (int, str, bool, type(None))):
+        return v
+    return repr(v)
+
+
 def snapshot(p):
     t = []
     for f in FIELDS:
         v = getattr(p, f, None)
         if f == 'plan' and v is not None:
             v = (v.num_tests, v.late)       # skipped/explanation are never read back by the parser
-        t.append(v)
+        t.append(_canon(v))
     t.append(getattr(p, 'lineno', 0) == 0)  # only "next line is the first line" influences the parser
+    # any further instance attribute (a later version of the parser may keep more state, e.g. the set of numbers seen)
+    for k in sorted(vars(p)):
+        if k not in FIELDS and k not in ('lineno', 'yaml_lineno'):
+            t.append((k, _canon(vars(p)[k])))
     return tuple(t)
 
 
@@ -289,10 +314,11 @@ def compare(where, seg, ev, must, may, r2):
 def check_stream(lines):
     """Whole-trace comparison of one stream (used by flat/pinned/replay).  Returns dict."""
     tr, _ = real_trace(lines)
-    out = {'viol': None, 'skipped': 0, 'optional_emitted': 0, 'pruned': False, 'steps': [], 'real': tr, 'ref_error': False, 'ref_may': False,
+    out = {'viol': None, 'viols': [], 'skipped': 0, 'optional_emitted': 0, 'pruned': False, 'steps': [], 'real': tr, 'ref_error': False, 'ref_may': False,
            'ref_bail': False, 'ref_badtest': False}
     if tr[0] == 'raise':
         out['viol'] = ('C18:raise', 'parser raised ' + tr[1], 0)
+        out['viols'].append(out['viol'])
         return out
     r = R0
     for i, l in enumerate(lines):
@@ -302,18 +328,21 @@ def check_stream(lines):
             out['pruned'] = True
             v = None if ev is None else compare('line', tr[i], ev, set(), may | {'unspecified'}, r)[0]
             out['skipped'] += 1
-            if v and not out['viol']:
-                out['viol'] = v + (i,)
+            if v:
+                out['viols'].append(v + (i,))
+                out['viol'] = out['viol'] or v + (i,)
             return out
         v, sk = compare('line', tr[i], ev, must, may, r)
+        r = pay(r, may, sk)
         out['skipped'] += sk > 0
         out['optional_emitted'] += sk == 2
         out['ref_error'] |= bool(must)
         out['ref_may'] |= bool(may)
         out['ref_bail'] |= any(e[0] == 'bailout' for e in ev)
         out['ref_badtest'] |= any(e[0] == 'test' and e[3] in ('FAIL', 'UNEXPECTEDPASS') for e in ev)
-        if v and not out['viol']:
-            out['viol'] = v + (i,)
+        if v:
+            out['viols'].append(v + (i,))
+            out['viol'] = out['viol'] or v + (i,)
     must, may = ref_end(r)
     out['steps'].append((None, [], sorted(must), sorted(may), tr[len(lines)]))
     v, sk = compare('end', tr[len(lines)], [], must, may, r)
@@ -322,8 +351,9 @@ def check_stream(lines):
     out['ref_error'] |= bool(must)
     out['ref_may'] |= bool(may)
     out['final'] = r
-    if v and not out['viol']:
-        out['viol'] = v + (len(lines),)
+    if v:
+        out['viols'].append(v + (len(lines),))
+        out['viol'] = out['viol'] or v + (len(lines),)
     return out
 
 
@@ -433,6 +463,7 @@ def bfs_work(chunk):
                 out.append((a, snap, r2, True))
                 continue
             v1, sk1 = compare('line', tr[n - 1], ev, must, may, r2)
+            r2 = pay(r2, may, sk1)
             emust, emay = ref_end(r2)
             v2, sk2 = compare('end', tr[n], [], emust, emay, r2)
             if v1:
@@ -459,7 +490,7 @@ def flat_work(item):
     (depth-first, shorter first on each branch): whole-trace comparison + verdict x exit status {0,1}."""
     start, recurse = item
     viols = []
-    cnt = {'seqs': 0, 'skipped': 0, 'optional_emitted': 0, 'pruned': 0, 'verdicts': 0, 'bad': 0, 'notbad': 0, 'known_verdict_effect': 0,
+    cnt = {'seqs': 0, 'disagreements': 0, 'skipped': 0, 'optional_emitted': 0, 'pruned': 0, 'verdicts': 0, 'bad': 0, 'notbad': 0, 'known_verdict_effect': 0,
            'ref_error_streams': 0, 'indeterminate_ref_verdict': 0}
     classes = set()
 
@@ -469,10 +500,13 @@ def flat_work(item):
         cnt['seqs'] += 1
         cnt['skipped'] += o['skipped']
         cnt['optional_emitted'] += o['optional_emitted']
-        if o['viol']:
-            if len(viols) < 40 or o['viol'][0] not in {v[0] for v in viols}:
-                viols.append((o['viol'][0], o['viol'][1], list(seq), o['viol'][2], None))
-            classes.add(o['viol'][0])
+        for vv in o['viols']:
+            if vv[2] < len(seq) - 1:
+                continue          # an earlier line: already reported for the shorter sequence
+            cnt['disagreements'] += 1
+            if len(viols) < 40 or vv[0] not in {v[0] for v in viols}:
+                viols.append((vv[0], vv[1], list(seq), vv[2], None))
+            classes.add(vv[0])
         if o['real'][0] != 'raise':
             for rc in (0, 1):
                 v, bad = check_verdict(lines, rc, o['real'])
@@ -553,6 +587,7 @@ def main():
     depth = ck.q(8, 16)
     FLAT_N = ck.q(3, 4)
     known_hits = [0]
+    nondet = []
 
     def report(key, what, lines, extra):
         # re-execute before printing: a verdict must not depend on the worker that produced it
@@ -560,8 +595,10 @@ def main():
         rep = {'lines': show(lines), 'newline': True}
         rep.update(extra)
         if 'rc' not in extra:
-            if not o['viol'] or o['viol'][0] != key:
-                ck.internal('nondeterminism: %s not reproduced on %r' % (key, show(lines)))
+            if (key, extra['step']) not in [(v[0], v[2]) for v in o['viols']]:
+                # never exit from inside a pmap loop (Pool.terminate() can dead-lock): checked after the loop
+                nondet.append('nondeterminism: %s not reproduced on %r' % (key, show(lines)))
+                return
             rep['trace'] = [{'line': (s[0] or '').rstrip('\n') if s[0] is not None else '<end of stream>',
                              'expected_events': s[1], 'error_required': s[2], 'error_allowed': s[3], 'observed': s[4]}
                             for s in o['steps']]
@@ -577,7 +614,7 @@ def main():
         v0, _ = compare('end', tr0[0], [], *ref_end(R0), R0)
         transitions += 1
         if v0:
-            report(v0[0], v0[1], [], {'part': 'bfs'})
+            report(v0[0], v0[1], [], {'part': 'bfs', 'step': 0})
         seen = {(snap0, R0)}
         frontier = [((), R0)]
         skipped = pruned = opt_emitted = 0
@@ -596,7 +633,7 @@ def main():
                     class_hits[b] += h
                 for idx, wh, key, what in viols:
                     seq = frontier[base + idx // NA][0] + (out[idx][0],)
-                    report(key, what, [LINES[i] for i in seq], {'part': 'bfs', 'where': wh})
+                    report(key, what, [LINES[i] for i in seq], {'part': 'bfs', 'step': len(seq) - (wh == 'line')})
                 for idx, (a, snap, r2, prune) in enumerate(out):
                     traces += 1
                     if prune:
@@ -611,6 +648,8 @@ def main():
                         ref_states.add(r2)
                         nxt.append((frontier[base + idx // NA][0] + (a,), r2))
                 base += len(out) // NA
+            if nondet:
+                ck.internal(nondet[0])
             per_depth.append(len(nxt))
             frontier = nxt
         states = len(seen)
@@ -653,13 +692,15 @@ def main():
                     report(key, what, lines, {'part': 'flat', 'step': step})
                 else:
                     report(key, what, lines, {'part': 'verdict', 'rc': rc})
+        if nondet:
+            ck.internal(nondet[0])
         flat_seqs += tot['seqs']
         ck.part('flat', maxlen=FLAT_N, sequences=flat_seqs, skipped_unspecified=tot['skipped'],
                 skipped_where_parser_emitted_an_error=tot['optional_emitted'], pruned_unspecified=tot['pruned'],
                 verdict_runs=tot['verdicts'] + 2, verdict_bad=tot['bad'], verdict_not_bad=tot['notbad'],
                 streams_with_required_error=tot['ref_error_streams'],
                 streams_reported_not_bad_although_reference_bad=tot['known_verdict_effect'],
-                disagreement_classes=sorted(fclasses))
+                disagreements=tot['disagreements'], disagreement_classes=sorted(fclasses))
         ck.require(tot['bad'] > 100 and tot['notbad'] > 100, 'verdict outcomes not both exercised')
         ck.sample({'verdict': ['ok # TODO'], 'rc': 0, 'res': real_verdict(['ok # TODO\n'], 0)[0].name})
 
@@ -689,7 +730,9 @@ def main():
               'a `#` not followed by SKIP.../TODO on a test line is a comment; the description keeps a leading "- "')
     ck.assume('unspecified, hence error presence not compared (counted as skipped_unspecified): repeated tests after a late '
               'plan (one error suffices), directives on a plan line with tests, count/numbering errors at end of stream after '
-              'Bail out!, errors reported early for duplicates/count overflow; empty line inside a YAML block prunes the branch')
+              'Bail out!, errors reported early for duplicates/count overflow (a duplicate reported on the spot waives the numbering '
+              'error it entails at end of stream); an empty line inside a YAML block prunes the branch; a stream without any plan '
+              'is not an error (not in the property\'s list)')
     ck.assume('product states merged on (parser fields %s + first-line flag, reference state); lineno beyond the first-line '
               'test and yaml_lineno only feed message text / UnknownLine.lineno, which is compared against the replayed '
               'position' % (', '.join(FIELDS)))
